@@ -591,15 +591,25 @@ func fullReadWrapper(w *ssa.Function, src string, depth int) bool {
 				}
 				// any other error value may be nil while the read failed: treated like a success report
 			}
-			guarded := false
-			for _, a := range vc.Atoms {
-				for _, E := range srcs {
+			guarded, n := true, 0
+			for _, E := range srcs {
+				def, _ := E.(ssa.Instruction)
+				if ex, isEx := E.(*ssa.Extract); isEx {
+					def, _ = ex.Tuple.(ssa.Instruction)
+				}
+				if def != nil && def.Block() != r.Block() && !reaches(def, r) {
+					continue
+				}
+				n++
+				ok := false
+				for _, a := range vc.Atoms {
 					if a.Op == "==" && a.R == "nil" && a.LV == E {
-						guarded = true
+						ok = true
 					}
 				}
+				guarded = guarded && ok
 			}
-			if !guarded {
+			if !guarded || n == 0 {
 				return false
 			}
 		}
@@ -630,17 +640,28 @@ func checkItemAfterSuccess(c *Ctx, fn *ssa.Function, src string) {
 			continue
 		}
 		n++
+		// every transport read that can run before this return must have been found successful on the way
 		good := true
 		for _, ic := range cases {
-			ok := false
-			for _, a := range ic.atoms {
-				for _, E := range srcs {
+			n := 0
+			for _, E := range srcs {
+				def, _ := E.(ssa.Instruction)
+				if ex, isEx := E.(*ssa.Extract); isEx {
+					def, _ = ex.Tuple.(ssa.Instruction)
+				}
+				if def != nil && def.Block() != r.Block() && !reaches(def, r) {
+					continue
+				}
+				n++
+				ok := false
+				for _, a := range ic.atoms {
 					if a.Op == "==" && a.R == "nil" && a.LV == E {
 						ok = true
 					}
 				}
+				good = good && ok
 			}
-			good = good && ok
+			good = good && n > 0
 		}
 		R.Check(good, "C08.excl", fmt.Sprintf("%s|%s|item-after-success#%d", core.ShortPkg(fn), core.FuncName(fn), n), P.InstrPos(r),
 			"an item is returned only after the transport read succeeded",
